@@ -75,6 +75,7 @@ func gen(a Args, out *Out) {
 		{5, connsim.FreeZeroCapacities},
 		{6, connsim.FreePartialFrameClose},
 		{2, connsim.FreePeerPause},
+		{2, connsim.FreeConsumerPause},
 		{1, connsim.FreePeerPauseDefault},
 	}
 	var jobs []job
